@@ -52,6 +52,17 @@ def _sched(markers):
     return code, evs, err[-200:]
 
 
+FAMILIES = [("md004", "md005", "md006", "md007", "md029", "md030", "md032"), ("md001", "md003", "md018", "md019", "md020", "md021", "md022", "md023"),
+            ("md009", "md010", "md012", "md027", "md047", "md031", "md046", "md048"), ("md035", "md037", "md038", "md039", "md044")]
+
+
+def _scan_ids(doc):
+    with Scratch("pv-c09s-") as d:
+        open(os.path.join(d, "f.md"), "wb").write(doc.encode("utf-8"))
+        s, so, se = impl.run_cli(["scan", "f.md"], cwd=d)
+    return sorted({x.lower() for x in re.findall(r"^f\.md:\d+:\d+: ([A-Z]+\d+):", so, re.M)})
+
+
 def _converge(case):
     doc, enabled, disabled = case
     argv = (["-d", ",".join(disabled)] if disabled else []) + (["-e", ",".join(enabled)] if enabled else [])
@@ -115,9 +126,21 @@ def run(ctx):
     configs += [("pair:" + a + "+" + b, [a, b], [x for x in allids if x not in (a, b)]) for a, b in itertools.combinations(fixers, 2)]
     space = [(d, c) for d in docs for c in configs]
     if ctx.tier == "quick":
-        keep = [s for s in space if s[1][0] == "default"]
-        rest = [s for s in space if s[1][0] != "default"]
-        space = keep + core.random.Random(ctx.seed).sample(rest, 1800)
+        # the default set for every document; a rule alone and the pairs within its family for the rules that fire on the document
+        # (that is where two fixes can meet); a random sample of everything else
+        trig = dict(zip(docs, impl.pmap(_scan_ids, docs, chunksize=16)))
+        fam = {r: f for f in FAMILIES for r in f}
+        want = set()
+        for d in docs:
+            for a in trig[d]:
+                if a in fixers:
+                    want.add((d, "only:" + a))
+                    for b in fam.get(a, ()):
+                        if b != a and b in fixers:
+                            want.add((d, "pair:" + "+".join(sorted((a, b)))))
+        keep = [s for s in space if s[1][0] == "default" or (s[0], s[1][0]) in want]
+        rest = [s for s in space if not (s[1][0] == "default" or (s[0], s[1][0]) in want)]
+        space = keep + core.random.Random(ctx.seed).sample(rest, 800)
     res = impl.pmap(_converge, [(d, c[1], c[2]) for d, c in space], chunksize=16)
     for (d, c), (e1, c1, ids, e2, c2, err) in zip(space, res):
         ctx.count(1, "converge/" + c[0].split(":")[0])
